@@ -395,6 +395,122 @@ def _pred_loop(e, st, a, stop_on, result_if_stopped, result_otherwise, what):
     return res
 
 
+def _veciter(items):
+    return VAgg(name='VecIter', extra={'items': tuple(items), 'idx': 0, 'owning': False})
+
+
+def _as_items(e, st, v):
+    """the elements an iterable value yields (VecIter / Vec / Option), or None"""
+    if isinstance(v, VRef):
+        v = _load(e, st, peel(e, st, v))
+    if isinstance(v, VAgg) and v.name == 'VecIter':
+        return list(v.extra['items'][v.extra['idx']:])
+    if isinstance(v, VAgg) and v.name == 'Vec':
+        return list(v.extra['items'])
+    if isinstance(v, VAgg) and v.name == 'Option':
+        d = e.concrete_int(st, e.discriminant_of(st, v))
+        if d is None:
+            raise Unsupported("iterating a symbolic Option")
+        return [e.get_field(v, ('v', 'Some', 0))] if d == 1 else []
+    return None
+
+
+# lazy adapters are evaluated eagerly (their closures are pure selectors in this code base; a closure that cannot be run
+# to completion synchronously makes the run inconclusive)
+def m_iter_filter(e, st, fr, t, a):
+    items = _as_items(e, st, a[0])
+    if items is None:
+        return NotImplemented
+    out = []
+    for x in items:
+        xo = st.alloc(x)
+        r = e.sys.call_closure_sync(st, a[1], [VRef(('obj', xo), (), False)])
+        b = e.as_int_expr(r)
+        if not isinstance(b, int):
+            raise Unsupported("Iterator::filter with a symbolic predicate")
+        if b:
+            out.append(x)
+    return _veciter(out)
+
+
+def m_iter_map(e, st, fr, t, a):
+    items = _as_items(e, st, a[0])
+    if items is None:
+        return NotImplemented
+    return _veciter([e.sys.call_closure_sync(st, a[1], [x]) for x in items])
+
+
+def m_iter_flat_map(e, st, fr, t, a):
+    items = _as_items(e, st, a[0])
+    if items is None:
+        return NotImplemented
+    out = []
+    for x in items:
+        sub = _as_items(e, st, e.sys.call_closure_sync(st, a[1], [x]))
+        if sub is None:
+            raise Unsupported("Iterator::flat_map: the closure returned something that is not a modelled iterable")
+        out += sub
+    return _veciter(out)
+
+
+def m_iter_find(e, st, fr, t, a):
+    ref, it, items = _iter_items(e, st, a[0])
+    if it is None:
+        return NotImplemented
+    n = 0
+    res = NONE
+    for x in items:
+        n += 1
+        xo = st.alloc(x)
+        r = e.sys.call_closure_sync(st, a[1], [VRef(('obj', xo), (), False)])
+        b = e.as_int_expr(r)
+        if not isinstance(b, int):
+            raise Unsupported("Iterator::find with a symbolic predicate")
+        if b:
+            res = some(x)
+            break
+    _consume(e, st, ref, it, n)
+    return res
+
+
+def m_iter_position(e, st, fr, t, a):
+    ref, it, items = _iter_items(e, st, a[0])
+    if it is None:
+        return NotImplemented
+    for i, x in enumerate(items):
+        b = e.as_int_expr(e.sys.call_closure_sync(st, a[1], [x]))
+        if not isinstance(b, int):
+            raise Unsupported("Iterator::position with a symbolic predicate")
+        if b:
+            _consume(e, st, ref, it, i + 1)
+            return some(VScalar(i))
+    _consume(e, st, ref, it, len(items))
+    return NONE
+
+
+def m_slice_iter_mut(e, st, fr, t, a):
+    """[T]::iter_mut / Vec::iter_mut: mutable references to the elements (materialised in a snapshot object that is
+    written back is not needed here: elements are handles or boxed values whose identity lives elsewhere)"""
+    v = deref_arg(e, st, a[0])
+    if not (isinstance(v, VAgg) and v.name == 'Vec'):
+        return NotImplemented
+    raise Unsupported("iter_mut over a modelled Vec (element mutation is not written back)")
+
+
+def m_abort_new_pair(e, st, fr, t, a):
+    import sysmodels as S
+    oid = S.mobj(st, 'abort', aborted=False)
+    st.event('abortable_new', oid)
+    return VAgg(name='tuple', fields={('f', 0): S.handle('AbortHandle', oid), ('f', 1): VAgg(name='AbortRegistration', extra={'oid': oid})})
+
+
+def m_abortable_new(e, st, fr, t, a):
+    reg = a[1]
+    if not (isinstance(reg, VAgg) and reg.name == 'AbortRegistration'):
+        return NotImplemented
+    return VAgg(name='Abortable', fields={('f', 0): a[0]}, extra={'oid': reg.extra['oid']})
+
+
 def m_iter_any(e, st, fr, t, a):
     return _pred_loop(e, st, a, True, VScalar(True), VScalar(False), 'Iterator::any')
 
@@ -501,6 +617,18 @@ def m_vec_extend(e, st, fr, t, a):
 
 def m_future_ready(e, st, fr, t, a):
     return VAgg(name='ReadyFuture', fields={('f', 0): a[0]})
+
+
+def m_vecdeque_pop_front(e, st, fr, t, a):
+    v = _vec_at(e, st, a[0])
+    if v is None:
+        return NotImplemented
+    ref = peel(e, st, a[0])
+    items = v.extra['items']
+    if not items:
+        return NONE
+    _store(e, st, ref, VAgg(name='Vec', fields=v.fields, extra={**v.extra, 'items': tuple(items[1:])}))
+    return some(items[0])
 
 
 def m_vec_with_capacity(e, st, fr, t, a):
@@ -763,6 +891,14 @@ def install(eng: Engine):
     import sysmodels as _S
     add(r'^<.* as Iterator>::next$', _S.m_veciter_next)
     add(r'^<.* as IntoIterator>::into_iter$', lambda e, st, fr, t, a: a[0] if isinstance(a[0], VAgg) and a[0].name == 'VecIter' else NotImplemented)
+    add(r'^<.* as Iterator>::filter::<', m_iter_filter)
+    add(r'^<.* as Iterator>::map::<', m_iter_map)
+    add(r'^<.* as Iterator>::flat_map::<', m_iter_flat_map)
+    add(r'^<.* as Iterator>::find::<', m_iter_find)
+    add(r'^<.* as Iterator>::position::<', m_iter_position)
+    add(r'^core::slice::<impl \[.*\]>::iter_mut$|^Vec::<.*>::iter_mut$', m_slice_iter_mut)
+    add(r'AbortHandle::new_pair$', m_abort_new_pair)
+    add(r'Abortable::<.*>::new$', m_abortable_new)
     add(r'^<.* as Iterator>::any::<', m_iter_any)
     add(r'^<.* as Iterator>::all::<', m_iter_all)
     add(r'^<.* as Iterator>::for_each::<', m_iter_for_each)
@@ -776,6 +912,16 @@ def install(eng: Engine):
     add(r'^Vec::<.*>::extend::<', m_vec_extend)
     add(r'^(std::future::)?ready::<', m_future_ready)
     add(r'^Vec::<.*>::retain::<', m_vec_retain)
+    # VecDeque is the same sequence model (only the operations used on queues)
+    import sysmodels as _S2
+    add(r'^(std::collections::)?VecDeque::<.*>::(new|with_capacity)$', m_vec_with_capacity)
+    add(r'^<(std::collections::)?VecDeque<.*> as Default>::default$', m_vec_with_capacity)
+    add(r'^(std::collections::)?VecDeque::<.*>::push_back$', _S2.m_vec_push)
+    add(r'^(std::collections::)?VecDeque::<.*>::pop_front$', m_vecdeque_pop_front)
+    add(r'^(std::collections::)?VecDeque::<.*>::pop_back$', m_vec_pop)
+    add(r'^(std::collections::)?VecDeque::<.*>::len$', m_vec_len)
+    add(r'^(std::collections::)?VecDeque::<.*>::is_empty$', m_vec_is_empty)
+    add(r'^(std::collections::)?VecDeque::<.*>::clear$', m_vec_clear)
     add(r'^Vec::<.*>::with_capacity$', m_vec_with_capacity)
     add(r'^Vec::<.*>::swap_remove$', m_vec_swap_remove)
     add(r'^Vec::<.*>::remove$', m_vec_remove)
